@@ -1,11 +1,12 @@
 package main
 
 // A hand-written in-process fake of the Redis server behind a rueidis.Client, for the
-// few commands rueidisprob / rueidislimiter use. There is no Lua interpreter: each of
-// the packages' scripts is recognised by the SHA-1 of its text (the texts pinned in
-// Rv/Props/C35..C38.lean) and executed by a Go re-implementation of its semantics.
-// The re-implementations are validated against the Lean models by the script-level
-// operations of every suite (`s.*` lines).
+// few commands rueidisprob / rueidislimiter use. Each of the packages' scripts is
+// recognised by the SHA-1 of its text (the texts pinned in Rv/Props/C35..C38.lean) and
+// executed by a Go re-implementation of its semantics. The re-implementations are
+// validated against the Lean models by the script-level operations of every suite
+// (`s.*` lines). A script whose text is not one of the pinned ones is executed by the
+// mini Lua interpreter harness/luamini on the same keyspace (see luamini.go).
 
 import (
 	"context"
@@ -51,7 +52,7 @@ type fval struct {
 
 // reply is a canonical RESP value: integer, nil, bulk string, error, array.
 type reply struct {
-	typ byte // ':' '_' '$' '-' '*'
+	typ byte // ':' '_' '$' '-' '*' ('+' only from an interpreted script)
 	n   int64
 	s   string
 	arr []reply
@@ -71,6 +72,8 @@ func (r reply) String() string {
 		return "_"
 	case '$':
 		return "$" + r.s
+	case '+':
+		return "+" + r.s
 	case '-':
 		return "-" + strings.ReplaceAll(strings.SplitN(r.s, " ", 2)[0], "/", "")
 	}
@@ -112,6 +115,8 @@ func (r reply) msg() rueidis.RedisMessage {
 		return mock.RedisNil()
 	case '$':
 		return mock.RedisBlobString(r.s)
+	case '+':
+		return mock.RedisString(r.s)
 	case '-':
 		return mock.RedisError(r.s)
 	}
@@ -601,6 +606,7 @@ func (f *fakeServer) exec(ctx context.Context, cmd []string) reply {
 			sum := sha1.Sum([]byte(cmd[1]))
 			sha = hex.EncodeToString(sum[:])
 			f.loaded[sha] = true
+			scriptTexts.Store(sha, cmd[1])
 			f.hits["eval"]++
 		}
 		nk, err := strconv.Atoi(cmd[2])
@@ -609,12 +615,27 @@ func (f *fakeServer) exec(ctx context.Context, cmd []string) reply {
 		}
 		name, ok := scriptBySha[sha]
 		if !ok {
-			return record("unknown-script:"+sha, cmd[3:3+nk], cmd[3+nk:], rErr("ERR fake: script text is not one of the pinned texts"))
+			// not one of the pinned texts: interpreted; logged under the name of the known script it resembles
+			text, _ := scriptTexts.Load(sha)
+			label := labelOf(sha, text.(string))
+			luaUnknownRuns.Add(1)
+			cnt, _ := luaUnknownAs.LoadOrStore(label, new(atomic.Int64))
+			cnt.(*atomic.Int64).Add(1)
+			return record(label, cmd[3:3+nk], cmd[3+nk:], f.runLua(sha, text.(string), cmd[3:3+nk], cmd[3+nk:]))
 		}
 		if strings.HasSuffix(op, "_RO") != strings.HasSuffix(name, "ro") {
 			f.hits["ro-mismatch"]++
 		}
 		return record(name, cmd[3:3+nk], cmd[3+nk:], f.runScript(name, cmd[3:3+nk], cmd[3+nk:]))
+	case "SCRIPT":
+		if len(cmd) == 3 && strings.ToUpper(cmd[1]) == "LOAD" {
+			sum := sha1.Sum([]byte(cmd[2]))
+			sha := hex.EncodeToString(sum[:])
+			f.loaded[sha] = true
+			scriptTexts.Store(sha, cmd[2])
+			return rStr(sha)
+		}
+		return rErr("ERR fake: unsupported SCRIPT subcommand")
 	case "GET":
 		if len(cmd) != 2 {
 			return rErr("ERR wrong number of arguments for 'get' command")
